@@ -12,6 +12,7 @@ from ..core import Sub, check, lib, Violation
 from .. import oracle as O
 
 TWO52 = F(1, 2**52)
+K2_SEEN = []
 ASSUMPTIONS = [
     "oracle: exact rational arithmetic on the operands' float values (Phase value = Fraction(int) + Fraction(frac))",
     "tolerance 2^-52 cycles absolute; every generated expression has an exact result of magnitude <= 2^52",
@@ -71,7 +72,10 @@ def is_phase(p, what):
     check(v.dtype.names == ("int", "frac"), "{}: dtype {} is not the two-double structure", what, v.dtype)
     i, f = v["int"].ravel(), v["frac"].ravel()
     check(np.all(i == np.rint(i)), "{}: count part {} is not integral", what, i)
-    check(np.all(np.abs(f) <= 0.5), "{}: fraction {} outside [-1/2, 1/2]", what, f)
+    # known finding K2 (known_findings.json): one ulp beyond 1/2 can occur; anything further out is still a violation
+    check(np.all(np.abs(f) <= 0.5 + 1.2e-16), "{}: fraction {!r} outside [-1/2, 1/2]", what, f)
+    if np.any(np.abs(f) > 0.5):
+        K2_SEEN.append(what)
 
 
 def compare(p, expected, what, imag=False, tol=TWO52, shape=None):
@@ -391,6 +395,14 @@ def fd_case(draw):
         p["frac"] = [draw(st.sampled_from([-1e-17, 1e-17, -5e-324, 5e-324, -(2.0**-60), 2.0**-60, -1e-5, 0.0, -(2.0**-14)])) for _ in p["frac"]]
     dkind = draw(st.sampled_from(["qcycle", "qcycle", "phase", "qarr"]))
     d = draw(st.sampled_from([1.0, 0.5, 0.25, 2.0, 3.0, 0.125, 7.0, 1.5, -1.0, -0.5, 10.0, 1024.0, 0.1, 1 / 3, 2.0**-10]))
+    if draw(st.integers(0, 3)) == 0:
+        # dividends a hair off a multiple of the divisor: m*d + tiny, |tiny| between 2^-52 and an ulp of d (and beyond)
+        d = draw(st.sampled_from([1.0, 2.0, 3.0, 7.0, 10.0, 1024.0, -1024.0, 4096.0, 0.5, -3.0]))
+        tiny = st.sampled_from([-1e-17, 1e-17, -1e-15, 1e-15, -1.3e-14, 1.3e-14, -3e-13, 3e-13, -(2.0**-45), 2.0**-45, -1e-12])
+        ms = st.integers(-3, 3)
+        p["count"] = [float(draw(ms) * d) for _ in p["count"]]
+        p["frac"] = [draw(tiny) for _ in p["frac"]]
+        p["near_multiple"] = True
     if dkind == "qarr" and p["shape"]:
         n = int(np.prod(p["shape"]))
         dv = [draw(st.sampled_from([1.0, 0.5, 0.25, 2.0, 3.0, -1.0, 1.5])) for _ in range(n)]
@@ -452,6 +464,8 @@ def run_fd(case, stt):
     stt.label("divisor_" + case["dkind"])
     stt.label("op_" + op)
     stt.label("tiny_fraction" if any(0 < abs(f) < 1e-10 for f in ps["frac"]) else "ordinary_fraction")
+    if ps.get("near_multiple"):
+        stt.label("near_multiple_of_divisor")
 
 
 # -- 5. sin, cos, exp(i phase) depend on the fraction only ----------------------------------------------------------
